@@ -271,4 +271,169 @@ theorem applyDiffLoop_ok (xs : List Obj) (hs : List Nat) (ds : List Diff) (f : O
     have ih' := ih (fun x hx => hok x (List.mem_cons_of_mem _ hx))
     simp [applyDiffLoop, applyDiffOne_ok _ d _ h1, ih']
 
+/-! ### driving patterns -/
+
+/-- the invariant: both objects stand on their positions (whatever their `m_diff` holds) -/
+def DriveRep (n : Nat) (s : DriveState) (p : DrivePos) : Prop :=
+  s.a.it = diffState n p.a ∧ s.b.it = diffState n p.b ∧ p.a ≤ n ∧ p.b ≤ n
+
+theorem driveRep_init (xs : List Obj) : DriveRep xs.length (DriveState.init xs) ⟨0, 0⟩ := by
+  simp [DriveRep, DriveState.init, diffIter_mk_eq]
+
+theorem obj_atEnd (n i : Nat) (d : Option Diff) :
+    (DiffIterObj.mk (diffState n i) d).atEnd = (i == n) := rfl
+
+theorem obj_incr (n i : Nat) (d : Option Diff) (h : i < n) :
+    (DiffIterObj.mk (diffState n i) d).incr = DiffIterObj.mk (diffState n (i + 1)) d := by
+  simp [DiffIterObj.incr, diffState_incr n i h]
+
+theorem obj_star (xs : List Obj) (i : Nat) (d : Option Diff) (h : i < xs.length) :
+    (DiffIterObj.mk (diffState xs.length i) d).star xs =
+      (DiffIterObj.mk (diffState xs.length i) (some (diffAt xs i)), some (diffAt xs i)) := by
+  simp [DiffIterObj.star, deref_diffState xs i h]
+
+theorem driveStep_spec (xs : List Obj) (s : DriveState) (p : DrivePos) (op : DriveOp)
+    (h : DriveRep xs.length s p) :
+    (driveStep xs s op).2 = (specStep xs p op).2 ∧
+      DriveRep xs.length (driveStep xs s op).1 (specStep xs p op).1 := by
+  obtain ⟨⟨ia, da⟩, ⟨ib, db⟩⟩ := s
+  obtain ⟨pa, pb⟩ := p
+  obtain ⟨h1, h2, ha, hb⟩ := h
+  simp only at h1 h2 ha hb
+  subst h1 h2
+  have eqA : pa < xs.length → (pa == xs.length) = false := by intro h; simp; omega
+  have eqB : pb < xs.length → (pb == xs.length) = false := by intro h; simp; omega
+  have neA : ¬ pa < xs.length → (pa == xs.length) = true := by intro h; simp; omega
+  have neB : ¬ pb < xs.length → (pb == xs.length) = true := by intro h; simp; omega
+  cases op <;> simp only [driveStep, specStep, obj_atEnd]
+  case deref | arrow | inc | post =>
+    by_cases h : pa < xs.length
+    · simp [eqA h, h, obj_star xs pa da h, obj_incr _ pa da h, DriveRep, presentAt]; omega
+    · simp [neA h, h, DriveRep, ha, hb]
+  case derefB | incB | postB =>
+    by_cases h : pb < xs.length
+    · simp [eqB h, h, obj_star xs pb db h, obj_incr _ pb db h, DriveRep, presentAt]; omega
+    · simp [neB h, h, DriveRep, ha, hb]
+  case adv2 =>
+    by_cases h : pa + 1 < xs.length
+    · have h0 : pa < xs.length := by omega
+      have e1 : (pa + 1 == xs.length) = false := by simp; omega
+      simp [eqA h0, h, obj_incr _ pa da h0, obj_incr _ (pa + 1) da h, obj_atEnd, e1, DriveRep]; omega
+    · by_cases h0 : pa < xs.length
+      · have e1 : (pa + 1 == xs.length) = true := by simp; omega
+        simp [eqA h0, h, obj_incr _ pa da h0, obj_atEnd, e1, DriveRep, ha, hb]
+      · simp [neA h0, h, DriveRep, ha, hb]
+  case copy | assign => simp [DriveRep, ha, hb]
+  case cmpEnd => simp [DriveRep, ha, hb]
+  case cmpAB =>
+    simp only [DriveRep, ha, hb, and_true, DiffIterObj.eq, diffState]
+    simp
+
+theorem driveRun_spec (xs : List Obj) (ops : List DriveOp) :
+    ∀ (s : DriveState) (p : DrivePos), DriveRep xs.length s p → driveRun xs s ops = specRun xs p ops := by
+  induction ops with
+  | nil => intros; rfl
+  | cons op rest ih =>
+    intro s p h
+    obtain ⟨h1, h2⟩ := driveStep_spec xs s p op h
+    simp only [driveRun, specRun, h1, ih _ _ h2]
+
+
+theorem specRun_append (xs : List Obj) (l1 l2 : List DriveOp) :
+    ∀ p, specRun xs p (l1 ++ l2) = specRun xs p l1 ++ specRun xs (specPos xs p l1) l2 := by
+  induction l1 with
+  | nil => intro p; rfl
+  | cons op rest ih => intro p; simp [specRun, specPos, ih]
+
+/-! ### driving patterns of ItemIterator -/
+
+/-- the iterator stands on the `i`-th of the items `F` it has to visit -/
+def ItemRep (c : FilterClass) (F : List PItem) (s : List PItem) (i : Nat) : Prop :=
+  (∃ d, s = advance c d) ∧ s.filter (fun p => compat c p.2.ty) = F.drop i ∧ i ≤ F.length
+
+theorem itemRep_cases (c : FilterClass) (F s : List PItem) (i : Nat) (h : ItemRep c F s i) :
+    (s = [] ∧ i = F.length) ∨
+      (∃ y ys, s = y :: ys ∧ i < F.length ∧ F[i]? = some y ∧
+        ys.filter (fun p => compat c p.2.ty) = F.drop (i + 1)) := by
+  obtain ⟨⟨d, hd⟩, hf, hi⟩ := h
+  cases s with
+  | nil =>
+    left
+    simp only [List.filter_nil] at hf
+    have := congrArg List.length hf
+    simp at this
+    exact ⟨rfl, by omega⟩
+  | cons y ys =>
+    right
+    have hy : compat c y.2.ty = true := advance_head c d y ys hd.symm
+    simp only [List.filter_cons, hy, if_true] at hf
+    have hlt : i < F.length := by
+      have := congrArg List.length hf
+      simp at this
+      omega
+    refine ⟨y, ys, rfl, hlt, ?_, ?_⟩
+    · have := congrArg List.head? hf
+      simpa [List.head?_drop] using this.symm
+    · have := congrArg List.tail hf
+      simpa [List.tail_drop] using this
+
+theorem itemRep_incr (c : FilterClass) (F : List PItem) (y : PItem) (ys : List PItem) (i : Nat)
+    (hi : i < F.length) (hf : ys.filter (fun p => compat c p.2.ty) = F.drop (i + 1)) :
+    ItemRep c F (ItemIter.incr c (y :: ys)) (i + 1) :=
+  ⟨⟨ys, rfl⟩, by simp [ItemIter.incr, advance_filter, hf], by omega⟩
+
+theorem itemStep_spec (c : FilterClass) (F : List PItem) (s : List PItem × List PItem) (p : DrivePos)
+    (op : DriveOp) (hop : op ≠ .cmpAB) (ha : ItemRep c F s.1 p.a) (hb : ItemRep c F s.2 p.b) :
+    (gdriveStep (itemIterOps c) s op).2 = (fspecStep (F.map (·.1)) p op).2 ∧
+      ItemRep c F (gdriveStep (itemIterOps c) s op).1.1 (fspecStep (F.map (·.1)) p op).1.a ∧
+      ItemRep c F (gdriveStep (itemIterOps c) s op).1.2 (fspecStep (F.map (·.1)) p op).1.b := by
+  obtain ⟨sa, sb⟩ := s
+  obtain ⟨pa, pb⟩ := p
+  simp only at ha hb
+  cases op <;> simp only [gdriveStep, fspecStep, itemIterOps, List.length_map]
+  case cmpAB => exact absurd rfl hop
+  case copy | assign => simp [ha, hb]
+  case cmpEnd =>
+    rcases itemRep_cases c F sa pa ha with ⟨h1, h2⟩ | ⟨y, ys, h1, h2, h3, h4⟩
+    · subst h1; subst h2; simp [ha, hb]
+    · have : (pa == F.length) = false := by simp; omega
+      subst h1; simp [this, ha, hb]
+  case deref | arrow | inc | post =>
+    rcases itemRep_cases c F sa pa ha with ⟨h1, h2⟩ | ⟨y, ys, h1, h2, h3, h4⟩
+    · subst h1; subst h2; simp [ha, hb]
+    · have hg : F[pa] = y := by rw [List.getElem?_eq_getElem h2] at h3; exact Option.some.inj h3
+      subst h1; simp [h2, hg, ha, hb, itemRep_incr c F y ys pa h2 h4]
+  case derefB | incB | postB =>
+    rcases itemRep_cases c F sb pb hb with ⟨h1, h2⟩ | ⟨y, ys, h1, h2, h3, h4⟩
+    · subst h1; subst h2; simp [ha, hb]
+    · have hg : F[pb] = y := by rw [List.getElem?_eq_getElem h2] at h3; exact Option.some.inj h3
+      subst h1; simp [h2, hg, ha, hb, itemRep_incr c F y ys pb h2 h4]
+  case adv2 =>
+    rcases itemRep_cases c F sa pa ha with ⟨h1, h2⟩ | ⟨y, ys, h1, h2, h3, h4⟩
+    · subst h1; subst h2
+      have : ¬ F.length + 1 < F.length := by omega
+      simp [this, ha, hb]
+    · subst h1
+      have hr := itemRep_incr c F y ys pa h2 h4
+      rcases itemRep_cases c F _ _ hr with ⟨h1', h2'⟩ | ⟨y', ys', h1', h2', h3', h4'⟩
+      · have : ¬ pa + 1 < F.length := by omega
+        simp [h1', this, ha, hb]
+      · simp [h1', h2', hb]
+        exact itemRep_incr c F y' ys' (pa + 1) h2' h4'
+
+theorem itemRun_spec (c : FilterClass) (F : List PItem) (ops : List DriveOp) (hops : DriveOp.cmpAB ∉ ops) :
+    ∀ (s : List PItem × List PItem) (p : DrivePos), ItemRep c F s.1 p.a → ItemRep c F s.2 p.b →
+      gdriveRun (itemIterOps c) s ops = fspecRun (F.map (·.1)) p ops := by
+  induction ops with
+  | nil => intros; rfl
+  | cons op rest ih =>
+    intro s p ha hb
+    have hop : op ≠ .cmpAB := fun h => hops (by simp [h])
+    obtain ⟨h1, h2, h3⟩ := itemStep_spec c F s p op hop ha hb
+    simp only [gdriveRun, fspecRun, h1, ih (fun h => hops (List.mem_cons_of_mem _ h)) _ _ h2 h3]
+
+theorem itemRep_init (c : FilterClass) (buf : List PItem) :
+    ItemRep c (buf.filter fun p => compat c p.2.ty) (ItemIter.mk c buf) 0 :=
+  ⟨⟨buf, rfl⟩, by simp [ItemIter.mk, advance_filter], by omega⟩
+
 end Osmium.Dispatch
